@@ -549,6 +549,21 @@ func main() {
 		w.top(fd)
 		shardRows = append(shardRows, w.rows...)
 	}
+	// the staging state of a Batch, guarded by the batch's own RWMutex b.mu (a Batch may be shared between goroutines)
+	var batchRows []row
+	funcs = funcsSaved
+	for _, name := range []string{"Batch.Put", "Batch.Get", "Batch.Delete", "Batch.Commit"} {
+		fd, ok := funcs[name]
+		if !ok {
+			batchRows = append(batchRows, row{"b.mu:" + name, 0, "missing", "none", 0})
+			continue
+		}
+		// (rows are labelled "b.mu:Batch.Put" …: in the db.mu table the Batch methods start with db.mu held, here they start unlocked)
+		w := &walker{method: "b.mu:" + name, lockExpr: []string{"b.mu"}, st: state{"none", 0}, recv: "b.",
+			fields: map[string]bool{"staged": true, "stageIndex": true, "cachedDataSize": true, "committed": true}}
+		w.top(fd)
+		batchRows = append(batchRows, w.rows...)
+	}
 	// the mapping state of fio.MMap, guarded by its own RWMutex (reads re-create the mapping after ResetFileSize)
 	funcs = map[string]*ast.FuncDecl{}
 	parseDir(filepath.Join(repo, "fio"))
@@ -585,6 +600,7 @@ func main() {
 	emitTable("locksetTable", all)
 	emitTable("shardTable", shardRows)
 	emitTable("mmapTable", mmapRows)
+	emitTable("batchTable", batchRows)
 	sb.WriteString("end XixiKV.Generated\n")
 	writeIfChanged(filepath.Join(out, "Skeletons.lean"), sb.String())
 
